@@ -11,6 +11,8 @@ import (
 	"fmt"
 	"io"
 	"math/rand"
+	"os"
+	"runtime/debug"
 	"strings"
 	"sync"
 	"sync/atomic"
@@ -67,6 +69,9 @@ func (w *wl) par(f func(id int, rng *rand.Rand)) {
 			defer func() {
 				if r := recover(); r != nil {
 					panics.Add(1)
+					if os.Getenv("C11_DEBUG_PANIC") != "" {
+						fmt.Println("WORKER-PANIC", r, string(debug.Stack()))
+					}
 				}
 			}()
 			f(i, rand.New(rand.NewSource(w.seed*1000+int64(i))))
